@@ -22,13 +22,14 @@ def build(c):
     bc = "".join(dims[a] if dims else (["x", "y", "z"][a] if nd <= 3 else f"x{a}") for a in c["periodic_axes"])
     region = df.Region(p1=p1, p2=p2, dims=dims)
     mesh = df.Mesh(region=region, n=sh, bc=c.get("bc_kw") or bc)
-    dt = int if c.get("int_dtype") else float
+    dt = int if c.get("int_dtype") else {"float32": np.float32, "float16": np.float16}.get(c.get("fdtype"), float)
     arr = np.array([float(F(x)) for x in c["vals"]], dtype=dt).reshape(*sh, c["nvdim"])
     valid = np.array(c["valid"], dtype=bool).reshape(*sh)
     vd = c.get("vdims")
     lay = c.get("layout")
     f = df.Field(mesh, nvdim=c["nvdim"], value=relayout(arr, lay), valid=relayout(valid, lay), unit=c.get("unit"),
-                 vdims=vd, vdim_mapping=c.get("vmap"), dtype=(int if c.get("int_dtype") else None))
+                 vdims=vd, vdim_mapping=c.get("vmap"),
+                 dtype=(int if c.get("int_dtype") else (dt if c.get("fdtype") else None)))
     if lay and c.get("layout_set"):
         f.array = relayout(arr, lay)     # the setter keeps the caller's memory order
     if c.get("pre"):
@@ -64,11 +65,18 @@ def line_case(L, mask, order, periodic, rng, restrict=True, poly=None):
         vals = [poly_eval(poly, x0 + (j + F(1, 2)) * h) for j in range(L)]
     # integer-typed fields (integer data): the derivative must not be truncated to the operand's dtype
     int_dtype = poly is None and mag == 1 and rng.random() < 0.25
+    fdtype = None
+    if poly is None and mag == 1 and not int_dtype and rng.random() < 0.2:
+        # single / half precision samples, exactly representable, LARGE compared with their differences: the
+        # stencil must be evaluated in double precision (products like 5*a round in the narrow type)
+        fdtype = rng.choice(["float32", "float32", "float16"])
+        top = 2 ** 24 if fdtype == "float32" else 2 ** 11
+        vals = [F(top - rng.randint(0, 40 if fdtype == "float32" else 12)) for _ in range(L)]
     pre = rng.choice([None, None, None, "mesh.scale", "region.scale"]) if poly is None else None
     return dict(kind="line", sh=[L], nvdim=1, ax=0, order=order, cell=[g.qs(h)], p1=[g.qs(x0)],
                 periodic_axes=[0] if periodic else [], restrict=restrict,
                 vals=[g.qs(v) for v in vals], valid=[bool(b) for b in mask], poly=poly, int_dtype=int_dtype,
-                mag=g.qs(mag), pre=pre, dims=rng.choice([None, None, None, ["V"], ["X"], ["t"]]), layout=rng.choice(LAYOUTS + [None] * 6), layout_set=rng.random() < 0.5)
+                mag=g.qs(mag), pre=pre, fdtype=fdtype, dims=rng.choice([None, None, None, ["V"], ["X"], ["t"]]), layout=rng.choice(LAYOUTS + [None] * 6), layout_set=rng.random() < 0.5)
 
 
 def nd_case(rng, tier):
@@ -147,6 +155,8 @@ def generate(rng, tier):
         cases.append(line_case(L, mask, rng.choice([1, 2]), rng.random() < 0.4, rng, restrict=False))
     for _ in range(150 if tier == "quick" else 1500):
         cases.append(nd_case(rng, tier))
+    for _ in range(120 if tier == "quick" else 1000):
+        cases.append(scale_case(rng))
     return cases
 
 
@@ -161,7 +171,80 @@ def runs_of(mask):
     return out
 
 
+def scale_case(rng):
+    """non-dyadic geometry (cell sizes and offsets that are not binary fractions): the index arithmetic behind
+    the periodic padding / cropping and the run splitting must not depend on how (p - pmin)/cell rounds.
+    Oracle only (no Coq term): fully valid lines, results compared within 1e-9 of the scale."""
+    L = rng.choice([2, 3, 4, 5, 5, 6, 7, 10, 12])
+    edge = rng.choice([1.0, 5e-9, 0.3, 0.7, 1e-6, 2.1, 3e-3]) * rng.choice([1, 1, 3])
+    # offsets up to 1e5 edges from the origin (beyond that the corners cannot carry the cell size any more)
+    p1 = edge * rng.choice([0.0, 1.0, 0.3, -0.7, 4.0, 0.2, 7.3, -2.2, 100.1, 1e3 + 0.1, -3e4 - 0.3, 1e5 + 0.7])
+    periodic = rng.random() < 0.7
+    order = rng.choice([1, 2])
+    deg = rng.choice([0, 1, 2])
+    nd = rng.choice([1, 1, 2])
+    other = rng.randint(1, 3)
+    return dict(kind="scale", L=L, p1=p1, edge=edge, periodic=periodic, order=order, nd=nd, other=other,
+                coeff=[rng.randint(-4, 4) for _ in range(deg + 1)], vals=[rng.randint(-20, 20) for _ in range(L)])
+
+
+def run_scale(c):
+    rec = dict(kind="scale", case=c, oracle=[], tags=[], coq=None)
+    L, nd = c["L"], c["nd"]
+    p1 = [c["p1"]] + [0.0] * (nd - 1)
+    p2 = [c["p1"] + c["edge"]] + [1.0] * (nd - 1)
+    n = [L] + [c["other"]] * (nd - 1)
+    mesh = df.Mesh(p1=p1, p2=p2, n=n, bc="x" if c["periodic"] else "")
+    h = F(mesh.cell[0])
+    vals = np.array(c["vals"], dtype=float)
+    arr = np.broadcast_to(vals.reshape([L] + [1] * (nd - 1) + [1]), (*n, 1)).copy()
+    f = df.Field(mesh, nvdim=1, value=arr)
+    st, r = attempt(lambda: f.diff("x", order=c["order"]))
+    if st != "ok":
+        rec["oracle"].append("diff-raised")
+        rec.update(obs=dict(err=r), key="scale/err", size=L)
+        return rec
+    a = [F(v) for v in c["vals"]]
+    want = []
+    for j in range(L):
+        if c["periodic"]:
+            want.append((a[(j + 1) % L] - a[(j - 1) % L]) / (2 * h) if c["order"] == 1
+                        else (a[(j + 1) % L] - 2 * a[j] + a[(j - 1) % L]) / (h * h))
+    out = np.asarray(r.array, dtype=float)
+    if out.shape != (*n, 1):
+        rec["oracle"].append("result-shape")
+    elif c["periodic"]:
+        sc = max([abs(float(w)) for w in want] + [1e-300])
+        # the corners carry the cell size only to |p|/cell ulps: that much relative noise is legitimate
+        tol = 1e-9 + 64 * 2.0 ** -52 * (abs(c["p1"]) + c["edge"]) / float(h)
+        for idx in np.ndindex(*n):
+            if abs(out[idx + (0,)] - float(want[idx[0]])) > tol * sc:
+                rec["oracle"].append("ring-centred-difference")
+                break
+    else:
+        # open line: a polynomial of degree <= 2 (<= 1 on two cells) sampled at the cell centres is exact
+        co = c["coeff"][: (2 if L == 2 else 3)]
+        if not (c["order"] == 2 and L < 3) and L >= 2:
+            xs = [F(mesh.index2point((j,) + (0,) * (nd - 1))[0]) for j in range(L)]
+            pv = [sum(F(ci) * x ** k for k, ci in enumerate(co)) for x in xs]
+            f2 = df.Field(mesh, nvdim=1, value=np.broadcast_to(
+                np.array([float(v) for v in pv]).reshape([L] + [1] * (nd - 1) + [1]), (*n, 1)).copy())
+            st2, r2 = attempt(lambda: f2.diff("x", order=c["order"]))
+            dv = [sum(k * F(ci) * x ** (k - 1) for k, ci in enumerate(co) if k >= 1) if c["order"] == 1
+                  else sum(k * (k - 1) * F(ci) * x ** (k - 2) for k, ci in enumerate(co) if k >= 2) for x in xs]
+            sc = max([abs(float(v)) for v in pv] + [1.0]) / float(h) ** c["order"]
+            if st2 != "ok" or any(abs(np.asarray(r2.array, dtype=float)[(j,) + (0,) * nd] - float(dv[j])) > 1e-6 * sc
+                                  for j in range(L)):
+                rec["oracle"].append("polynomial-not-exact")
+    rec["oracle"] = sorted(set(rec["oracle"]))
+    rec.update(obs=dict(array=js(out.reshape(-1))), key=f'scale/{L}/{c["order"]}/{c["periodic"]}/{nd}', size=L,
+               nontrivial=True)
+    return rec
+
+
 def run_case(c):
+    if c["kind"] == "scale":
+        return run_scale(c)
     rec = dict(kind=c["kind"], case=c, oracle=[], tags=[])
     f = build(c)
     sh, ax, order = c["sh"], c["ax"], c["order"]
@@ -206,7 +289,7 @@ def run_case(c):
     st3, r3 = attempt(lambda: f.diff(dim, order=order, restrict2valid=c["restrict"]))
     if st3 != "ok" or not np.array_equal(r3.array, out) or not np.array_equal(f.valid, orig_valid):
         rec["oracle"].append("repeated-call-differs")
-    if c["restrict"] and not orig_valid.all() and not c.get("int_dtype"):
+    if c["restrict"] and not orig_valid.all() and not c.get("int_dtype") and not c.get("fdtype"):
         # blind across gaps, at any magnitude: whatever is stored in invalid cells (huge, infinite, NaN)
         # must never reach a result
         fp = build(c)
@@ -265,6 +348,7 @@ def run_case(c):
 
         def diff_of(v, m=None):
             c2 = dict(c)
+            c2["fdtype"] = None      # derived data need not be representable in the narrow type: double precision
             c2["vals"] = [g.qs(x) for x in v]
             if m is not None:
                 c2["valid"] = [bool(b) for b in m]
@@ -310,9 +394,12 @@ def run_case(c):
 
 
 def stats(records):
-    out = {"lines": 0, "nd": 0, "periodic": 0, "masked": 0}
+    out = {"lines": 0, "nd": 0, "periodic": 0, "masked": 0, "scale": 0}
     for r in records:
         c = r["case"]
+        if not isinstance(c, dict) or c.get("kind") == "scale":
+            out["scale"] += 1
+            continue
         out["lines" if c["kind"] == "line" else "nd"] += 1
         out["periodic"] += int(c["ax"] in c["periodic_axes"])
         out["masked"] += int(not all(c["valid"]))
